@@ -951,6 +951,14 @@ def annulus_specs(tier):
                         for a in angles:
                             out.append({'cls': cls, 'center': list(c), 'inner_width': w, 'inner_height': h,
                                         'outer_width': w * fw, 'outer_height': h * fh, 'angle': a})
+    # integral sizes given as narrow numpy integer scalars (their squares and products do not fit the type); also with an integer centre
+    for dt, (iw, ih, ow, oh) in (('uint8', (20, 10, 40, 30)), ('int8', (10, 12, 100, 90)), ('int16', (150, 100, 300, 200)), ('uint16', (200, 100, 300, 260))):
+        for c in (centres[0], (12, 7)):
+            out.append({'cls': 'circleannulus', 'center': list(c), 'inner_radius': ih, 'outer_radius': oh, 'size_dtype': dt})
+            for cls in ('ellipseannulus', 'rectangleannulus'):
+                for a in angles[:2]:
+                    out.append({'cls': cls, 'center': list(c), 'inner_width': iw, 'inner_height': ih, 'outer_width': ow, 'outer_height': oh,
+                                'angle': a, 'size_dtype': dt})
     return out
 
 
